@@ -645,8 +645,13 @@ class PopenCase(ChildCase):
         global _current
         c = self.child
         if self.k_state in ('run', 'stop'):
-            os.kill(self.pid, signal.SIGKILL)
-            self._dies(9)
+            # (the code under test may already have reaped the child behind our back: that is an
+            # observation for the trace, not a reason for the harness to give up)
+            try:
+                os.kill(self.pid, signal.SIGKILL)
+                self._dies(9)
+            except (ProcessLookupError, ChildProcessError):
+                self.k_state = 'zombie'
         try:
             c.proc.wait()
         except Exception:
